@@ -91,6 +91,14 @@ def walk_case(ctx, rng, idx):
         if _cr(h) and len(h.get_nodes()) == N:
             ctx.event("re-evaluated-after-edge-removal")
             walk_eval(ctx, rng, idx, h, N)
+    from ..mutate import connected_ref as _cr2
+
+    if _cr2(h) and len(h.get_nodes()) == N and rng.random() < 0.3:  # the same hypergraph reached through other calls (copy of a copy / clear() and re-insertion)
+        from ..mutate import second_order
+
+        lab, g2 = second_order(rng, h)
+        ctx.event("re-evaluated-on-" + lab)
+        walk_eval(ctx, rng, idx, g2, N)
 
 
 def walk_eval(ctx, rng, idx, h, N):
